@@ -46,23 +46,25 @@ def run(ctx):
     import probes
     import rules_rounding
 
-    def kernel_task(c, pr, name):
-        import collections
-        st = collections.Counter()
-        path = pr.inherent(P16.tykey, name)
+    step = 1    # every encoding in both tiers (about 2 min on 16 cores)
+    jobs = []
+    for name in P16_FUNCS:
+        path = prog.inherent(P16.tykey, name)
         if not path:
-            return st
-        step = 64 if ctx.tier == 'quick' else 8
-        pts = sorted(set(list(range(1, 1 << 16, step)) + probes.posit_probes(P16, 2)))
-        sp = mspec(P16, name)
-        pts = [(u,) for u in pts if sp([u]) is not None]
-        st['points'] = run_points(c, pr, 'GCR', 'P16E1::%s' % name, path, P16, pts, sp, key_label='P16E1::%s' % name)
-        return st
-    st_ = rules_rounding.run_parallel(ctx, prog, [(kernel_task, (name,), {}) for name in P16_FUNCS], prefix='kernel_probe_')
-    ctx.count('kernel_probe_points_total', st_['points'])
-    ctx.rules.append('kernel probes: the ten P16E1 functions at every 64th encoding (8th in the thorough tier) and the specification-critical encodings vs the 400-bit oracle')
+            continue
+        pts = sorted(set(list(range(0, 1 << 16, step)) + probes.posit_probes(P16, 2)))
+        jobs.append(dict(rule='GCR', label='P16E1::%s' % name, path=path, pty=P16, points=[(u,) for u in pts], spec=mspec(P16, name),
+                         key_label='P16E1::%s' % name))
+    n = run_points_parallel(ctx, prog, jobs, chunk=1024, prefix='kernel_probe_')
+    ctx.count('kernel_probe_points_total', n)
+    ctx.count('kernel_probe_encoding_step', step)
+    ctx.rules.append('kernel probes: the ten P16E1 functions at every %s encoding and the specification-critical encodings vs the 400-bit oracle'
+                     % ('8th' if step == 8 else 'single'))
+    if step == 1:
+        ctx.notes.append('every one of the 2^16 encodings of each of the ten P16E1 functions is decided singly (enumeration of singleton cells); '
+                         'points whose correct rounding the 400-bit oracle cannot certify are skipped and counted')
     ctx.require('C11 decided cells', tot, 400)
     ctx.trusted += ['mpmath 1.3 at 400 bits with a two-sided margin test (a point whose rounding is not certain is skipped, never guessed)']
-    ctx.undecided['general_path'] = 'the fixed-point polynomial kernels between the cut-offs are decided at the probe points only (singleton verdicts)'
+    ctx.undecided['general_path'] = 'the fixed-point polynomial kernels between the cut-offs are decided at the probe points only (singleton verdicts): every encoding, in both tiers'
     return LEVEL, ('P8E0::exp and P8E0::ln are decided for all 256 inputs (table index term, bounds, every entry against the correctly rounded value); the ten P16E1 '
                    'functions are decided on every cell in front of the polynomial kernels: NaR, domain errors, exact zeros, saturation and "rounds to 1" cut-offs.')
